@@ -186,6 +186,10 @@ def standard_check(ctx, P):
         if r.violated and r.violated != "deadlock":
             raise HarnessError("generator spec problem: %s\n%s" % (r.violated, r.out[-2000:]))
         behs = r.behaviours
+        if g.get("select"):
+            # optional check-specific pre-selection (fn(list of behaviours, random.Random(seed)) -> list)
+            import random as _random
+            behs = g["select"](behs, _random.Random(ctx.seed))
         mx = g.get("max") if quick else g.get("thorough_max", g.get("max"))
         if mx and len(behs) > mx:
             # deterministic thinning by seed
